@@ -18,8 +18,8 @@ static bool trace_on() { static bool v = env_flag("VF_C02_TRACE"); return v; }
 static void prop_cycle(Tape &t, Ctx &c) {
     // ---- matrix: SPD irreducibly diagonally dominant M-matrix, contrast <= 100
     GenMat gm = gen_mmat_case(t, {0, 1, 1, 2, 2, 3}, {1, 8, 30, 80}, {12, 40, 100, 200}, 100.0, true);
-    const Graph &g = gm.g; const MmatInfo &mi = gm.mi; const Csr<double> &A = gm.A;
-    const ptrdiff_t n = A.n;
+    const Graph &g = gm.g; const MmatInfo &mi = gm.mi; Csr<double> A = gm.A;
+    ptrdiff_t n = A.n;
 
     // ---- configuration
     AmgCfg cfg;
@@ -36,12 +36,61 @@ static void prop_cycle(Tape &t, Ctx &c) {
     int kexp = static_cast<int>(t.u(0, 40)) - 20; if (kexp == 0) kexp = 1;
     // npre / npost = 0 (V(0,nu), W(0,nu), V(nu,0) cycles; npre + npost >= 1).  Read last so that older saved tapes keep their meaning.
     { int z = static_cast<int>(t.u(0, 7)); if (z >= 4 && z <= 6) cfg.npre = 0; else if (z == 7) cfg.npost = 0; }
+    // coarsening.aggr.block_size (pointwise aggregation) for the aggregation-type coarsenings; read last as well.  The matrix
+    // then needs a size that is a multiple of the block size: either the generated scalar M-matrix itself, padded with
+    // unknowns that are chained to the last one (unknowns 2I, 2I+1 form a "node": neighbouring block columns of different
+    // strength through contrast / anisotropy), or bs copies of it coupled node-wise, A (x) I + blockdiag(c_i S).
+    std::string bs_kind;
+    {
+        int z = static_cast<int>(t.u(0, 7)); int variant = static_cast<int>(t.u(0, 2));
+        unsigned bs = z <= 4 ? 1u : z <= 6 ? 2u : 3u;
+        if (bs > 1 && cfg.coars != RS) {
+            cfg.block_size = bs;
+            std::vector<std::map<ptrdiff_t, double>> rows;
+            if (variant == 2 && n <= 80) { // bs coupled copies: A (x) I + blockdiag(c_i S), S = tridiag(-q, 1, -q), c_i = a_ii / 2: an SPD M-matrix again
+                bs_kind = "coupled"; const double q = 0.3;
+                rows.resize(n * bs);
+                for (ptrdiff_t i = 0; i < n; ++i) for (ptrdiff_t j = A.ptr[i]; j < A.ptr[i + 1]; ++j) {
+                    for (unsigned a = 0; a < bs; ++a) rows[i * bs + a][A.col[j] * bs + a] += A.val[j];
+                    if (A.col[j] == i) for (unsigned a = 0; a < bs; ++a) for (unsigned b2 = 0; b2 < bs; ++b2) {
+                        double sv = a == b2 ? 1.0 : (a + 1 == b2 || b2 + 1 == a) ? -q : 0.0;
+                        if (sv != 0) rows[i * bs + a][i * bs + b2] += 0.5 * A.val[j] * sv;
+                    }
+                }
+                std::vector<double> f2(n * bs), g2(n * bs);
+                for (ptrdiff_t i = 0; i < n * static_cast<ptrdiff_t>(bs); ++i) { f2[i] = f[i / bs] * (1.0 + 0.25 * (i % bs)); g2[i] = gq[i / bs] * (1.0 - 0.125 * (i % bs)); }
+                f = f2; gq = g2; n *= bs;
+            } else { // the scalar matrix itself, padded to a multiple of bs
+                bs_kind = "reblocked";
+                ptrdiff_t pad = (bs - n % bs) % bs;
+                rows.resize(n + pad);
+                for (ptrdiff_t i = 0; i < n; ++i) for (ptrdiff_t j = A.ptr[i]; j < A.ptr[i + 1]; ++j) rows[i][A.col[j]] += A.val[j];
+                for (ptrdiff_t k = 0; k < pad; ++k) { ptrdiff_t a = n + k - 1, b2 = n + k; rows[a][a] += 1.0; rows[a][b2] = -1.0; rows[b2][a] = -1.0; rows[b2][b2] = 2.0; f.push_back(1.0); gq.push_back(-0.5); }
+                n += pad;
+            }
+            A = from_triplets<double>(n, n, rows);
+            c.label("aggr.block_size=" + std::to_string(bs) + ":" + bs_kind);
+        }
+    }
 
     c.desc << "cycle " << g.family << " n=" << n << " nnz=" << A.nnz() << " contrast=" << mi.contrast << " aniso=" << mi.aniso << " shifts=" << mi.shifts
-           << " | " << cfg.str() << " | alpha=" << alpha << " beta=" << beta << " k=" << kexp << " A=" << dump_small(A, 8);
+           << (bs_kind.empty() ? "" : " [" + bs_kind + " -> n=" + std::to_string(n) + "]") << " | " << cfg.str() << " | alpha=" << alpha << " beta=" << beta << " k=" << kexp << " A=" << dump_small(A, 8);
 
+    // smoothed aggregation with relax = 1.5 (omega = 1 exactly) zeroes the prolongation of such dragged-along unknowns as well
+    // (see F-emin-pointwise-isolated-column in c02_common.hpp); that parameter edge is reported, not generated: 1.25 instead.
+    if (cfg.block_size > 1 && cfg.sa_relax == 1.5) cfg.sa_relax = 1.25;
     ptree prm; cfg.put_amg(prm, "");
     auto Acrs = to_crs<double>(A);
+    double coarse_cond = 1; // emin with block_size > 1: largest condition number of a coarse operator (near rank deficiency short of the region below)
+    // Known finding F-emin-pointwise-rank-deficient (c02_common.hpp): evaluated on a hierarchy with the same transfer operators
+    // that keeps every level matrix and cannot throw (spai0, no direct coarse solve), before the real one is built.
+    if (cfg.coars == EMIN && cfg.block_size > 1) {
+        ptree p2; AmgCfg c2 = cfg; c2.relax = SPAI0; c2.direct_coarse = false; c2.put_amg(p2, "");
+        RtAmg probe(*Acrs, p2);
+        std::string why = coarse_level_singular(probe, &coarse_cond);
+        if (why.empty()) why = pointwise_isolated_column(probe, cfg.eps_strong, cfg.block_size);
+        if (!why.empty()) { c.label("emin:pointwise-rank-deficient"); c.desc << " | F-emin-pointwise-rank-deficient: " << why; if (c.known("F-emin-pointwise-rank-deficient")) return; }
+    }
     std::unique_ptr<RtAmg> amg;
     amg.reset(new RtAmg(*Acrs, prm));
     LevelInfo li = level_info(*amg);
@@ -58,10 +107,10 @@ static void prop_cycle(Tape &t, Ctx &c) {
 
     // ---- degenerate emin aggregates (former finding F-emin, fixed in /repo by a58f297): labelled, asserted like every other case
     if (cfg.coars == EMIN) {
-        std::string why = emin_degenerate(*amg, cfg.eps_strong);
+        std::string why = emin_degenerate(*amg, cfg.eps_strong, false, cfg.block_size);
         if (!why.empty()) { c.label("emin:degenerate-aggregate"); c.desc << " | emin degenerate: " << why; }
         // still open after the repair: an aggregate whose A_f P_tent column holds non-zero rounding residues (omega = residue/residue)
-        std::string res = emin_degenerate(*amg, cfg.eps_strong, true);
+        std::string res = emin_degenerate(*amg, cfg.eps_strong, true, cfg.block_size);
         if (!res.empty()) { c.label("emin:residue-aggregate"); c.desc << " | F-emin-residue: " << res; if (c.known("F-emin-residue")) return; }
     }
 
@@ -80,7 +129,7 @@ static void prop_cycle(Tape &t, Ctx &c) {
     double Bmax = B.cwiseAbs().maxCoeff();
     double amin, amax; eig_sym(Ad, amin, amax);
     VF_REQUIRE(amin > 0, "generator defect: A not positive definite, lambda_min=" << amin);
-    double kappa = amax / amin;
+    double kappa = std::max(amax / amin, coarse_cond); // rounding scale: the worst conditioned operator that is inverted in the cycle
     c.label(bucket(kappa, {1e2, 1e4, 1e6}, "kappa2"));
 
     // ---- linearity
